@@ -279,4 +279,21 @@ PROPS = {
         assumptions=ENC,
         trusted_base=["docutils node model (contracts/assumed_docutils.py)", "docutils transforms (ids, footnote numbering)"],
     ),
+    "C02": dict(
+        level="exploration",
+        contracts=[],
+        harness=True,
+        explanation=(
+            "BOUNDED ONLY so far (the generic render contract G on every render_* method is not yet built): the doctree of "
+            "generated documents against the markdown-it token tree of the same text and mode - leaf sequence (text, inline "
+            "code, code blocks, raw HTML, images, thematic breaks, hard breaks) identical in order and content, every leaf "
+            "under the same container path (paragraph, lists and items, block quote, emphasis/strong, link, table/row/cell, "
+            "heading), container counts one-to-one, link destinations, ordered-list start and delimiter, cell alignment and "
+            "code language carried over - in MyST and strict CommonMark mode; and the same view of the Sphinx back end's "
+            "doctree for a project of those documents (GFM mode needs linkify-it-py, which is not installed)."
+        ),
+        assumptions=["markdown-it-py's token tree is the parse of the Markdown (oracle)"],
+        trusted_base=[],
+        technique="bounded run-time stand-in (token-tree vs doctree comparison on generated documents) - no contract discharged yet",
+    ),
 }
